@@ -156,6 +156,8 @@ class ResourcePool:
                 container.suspend_container()
                 self.suspending_containers.append(container)
                 self.active_containers.remove(container)
+            # a suspended container no longer counts towards consumed memory
+            self._reconcile_consumed_ram()
         
         results = []
         if len(assignments) > 0:
